@@ -234,6 +234,24 @@ pub fn run(tier: Tier) -> i32 {
             }
         })
         .reduce(|| (Acc::new(), 0), |(a, c1), (b, c2)| (a.merge(b), c1 + c2));
+    // moderate size: many comment lines, many metadata keys, long expression, fixed sequences
+    {
+        let idx = |s: &str| LINES.iter().position(|(t, _)| *t == s).unwrap();
+        let c = [idx("// name"), idx("//  padded \t"), idx("//"), idx("   // indented")];
+        let m = [idx("@k: i1;"), idx("@k: \"s\";"), idx("@K: i3;"), idx("@k: [i1, [i2]];"), idx("@description: \"D\";"), idx("@k: i2;"), idx("@name: \"N\";"), idx("@k: {a: {b: none}};")];
+        let e = [idx("i1 +"), idx("i2")];
+        let b = idx("");
+        let mut long: Vec<Vec<usize>> = Vec::new();
+        long.push(vec![c[0], c[1], c[2], c[3], c[0], c[1], e[0], e[1]]);
+        long.push(vec![c[3], b, c[1], m[0], m[1], m[2], m[3], m[5], m[7], c[0], e[0], c[2], e[1], c[3]]);
+        long.push(vec![m[0], m[1], m[2], m[3], m[4], m[5], m[6], m[7], c[0], c[1], c[2], e[0], e[1]]);
+        long.push(vec![c[0], m[6], c[1], m[4], c[2], m[0], c[3], e[0], b, b, e[1], c[0], c[0]]);
+        long.push(vec![b, b, b, c[2], c[2], c[2], m[5], m[0], m[5], e[0], e[1]]);
+        for seq in &long {
+            run_seq(&g, seq, &mut acc0);
+        }
+        acc0.count("long_texts", long.len() as u64);
+    }
     rep.absorb(acc0);
     rep.absorb(acc);
     rep.states = count + 1;
